@@ -120,14 +120,35 @@ def h_negative(locus, tid, kind, preset):
             a = exons[0][0] - s
             j_ = g.int("start_jitter", -params.delta, params.delta)
             read = [(a - 150, a), (exons[0][0] + j_, exons[0][1] - 20)]
+        elif kind == "distant_polya":
+            # a truncated read of T whose polyA / polyT tail lies inside an exon, >= 400 bp away from the 3' end of every isoform
+            strand = gi.isoform_strands[tid]
+            far_from_ends = lambda p, k: AND([abs(p - ue[k][k]) >= big for ue in gi.all_isoforms_exons.values()])
+            if strand == "+":
+                jx = g.choice("last_read_exon", len(exons) - 1) + 1
+                p = g.int("polya_position", exons[jx][0] + 30, exons[jx][1])
+                g.add(far_from_ends(p, -1))
+                g.add(OR(jx == len(exons) - 1, exons[jx][1] - p >= big))      # the rest of a non-terminal exon is missing too
+                read = positive_read(g, exons, 0, jx, 0)[:-1] + [(exons[jx][0], p)]
+                info = PolyAInfo(p + 1, -1, -1, -1)
+            else:
+                jx = g.choice("first_read_exon", len(exons) - 1)
+                p = g.int("polyt_position", exons[jx][0], exons[jx][1] - 30)
+                g.add(far_from_ends(p, 0))
+                g.add(OR(jx == 0, p - exons[jx][0] >= big))
+                read = [(p, exons[jx][1])] + positive_read(g, exons, jx, len(exons) - 1, 0)[1:]
+                info = PolyAInfo(-1, p - 1, -1, -1)
         else:
             raise ValueError(kind)
-        # the edit must stay inside the intron it modifies and create a structure that no isoform has
-        g.add(read[0][1] + 30 < read[1][0])
-        g.add(read[0][0] >= 1)
-        for u in gi.all_isoforms_exons:
-            g.assume(NOT(intron_chain_compatible(read, gi.all_isoforms_exons[u], params.delta, max(params.delta, params.minor_exon_extension))))
-        prof, ra = assign(g, gi, params, read)
+        if kind != "distant_polya":
+            info = None
+            # the edit must stay inside the intron it modifies and create a structure that no isoform has
+            g.add(read[0][1] + 30 < read[1][0])
+            g.add(AND([read[k][1] + 30 < read[k + 1][0] for k in range(len(read) - 1)]))
+            g.add(read[0][0] >= 1)
+            for u in gi.all_isoforms_exons:
+                g.assume(NOT(intron_chain_compatible(read, gi.all_isoforms_exons[u], params.delta, max(params.delta, params.minor_exon_extension))))
+        prof, ra = assign(g, gi, params, read, info)
         t = ra.assignment_type
         g.check(t not in CONSISTENT, "a read far from every annotated isoform never gets a consistent assignment type",
                 detail={"locus": locus, "isoform": tid, "edit": kind, "type": getattr(t, "name", str(t)), "reported": reported(ra)})
@@ -166,7 +187,9 @@ def instances(tier, seed):
                     out.append(Instance("follow_polya[%s,%s,%s]" % (locus, tid, preset), h_positive(locus, tid, 0, len(exons) - 1, preset, True), F,
                                         "full-length read with a polyA/polyT tail at the 3' end", weight=20, budget_s=1200))
             if len(models[0][3]) >= 3:
-                for kind in ("shifted_donor", "novel_exon", "retained_intron", "flanking_exon_right", "flanking_exon_left"):
+                for kind in ("shifted_donor", "novel_exon", "retained_intron", "flanking_exon_right", "flanking_exon_left", "distant_polya"):
+                    if kind == "distant_polya" and locus not in ("short_last", "short_first"):
+                        continue            # needs an exon long enough to hold a tail 400 bp away from every annotated end
                     if kind == "retained_intron":
                         ex0 = models[0][3]
                         rd = [(ex0[0][0], ex0[1][1])] + ex0[2:]
